@@ -173,6 +173,10 @@ type Link struct {
 	// packet's ordinary latency does not count as a fault.
 	lastFaultDue time.Time
 	trace        *Trace
+	// dropNext: number of packets of type dropType still to be dropped
+	// (a targeted fault: "lose the next k ACKs").
+	dropNext int
+	dropType string
 
 	// Counters.
 	Dropped, Duplicated, Delayed, Offered int
@@ -187,6 +191,14 @@ func NewLink(name string, latency time.Duration, script []Decision, tr *Trace) *
 		wake:    make(chan struct{}),
 		trace:   tr,
 	}
+}
+
+// DropNext makes the link lose the next n packets of the given type (as named
+// by Describe: SYN, DATA, ACK, ...), independently of the fault script.
+func (l *Link) DropNext(typ string, n int) {
+	l.mu.Lock()
+	defer l.mu.Unlock()
+	l.dropType, l.dropNext = typ, n
 }
 
 // Arm starts applying the fault script (from its first entry) to packets
@@ -313,6 +325,10 @@ func (l *Link) Send(ctx context.Context, b []byte) error {
 		l.ord++
 	} else if l.armed {
 		l.ord++
+	}
+	if l.dropNext > 0 && typ == l.dropType {
+		l.dropNext--
+		d = Decision{Kind: Drop}
 	}
 	dec := d.Kind
 	switch d.Kind {
